@@ -24,7 +24,11 @@ type subscriber struct {
 	// another key) is moved to the address the datapath looks up, so that the rest is explored.
 	steered  [2]bool
 	wroteKey [2][]byte
-	smaller  [2]bool // the stored bucket is smaller than the configured burst (class only)
+	// obj is the *qos.SubscriberQoS the harness (as the caller) handed to SetSubscriberQoS last and still
+	// owns: real callers keep such objects, edit the plan in them and submit them again.  Down/Up/Burst/Prio
+	// above are the SNAPSHOT of the last successful Set call - the contract the datapath must enforce.
+	obj        *qos.SubscriberQoS
+	lastByName bool // the last successful Set went through SetSubscriberPolicy
 }
 
 func (s *subscriber) rate(dir int) uint64 {
@@ -59,16 +63,41 @@ func genSubscriber(rt *rapid.T, label string) *subscriber {
 }
 
 // install hands the policy to the manager exactly as pkg/dhcp does (SetSubscriberPolicy with a
-// named policy) or as an API caller does (SetSubscriberQoS).
+// named policy) or as an API caller does (SetSubscriberQoS with a freshly built object, which the
+// caller keeps in s.obj).
 func (p *plane) install(s *subscriber) error {
 	if s.ViaName {
+		return p.submit(s, submitByName)
+	}
+	return p.submit(s, submitFresh)
+}
+
+const (
+	submitFresh      = iota // SetSubscriberQoS(new object carrying the snapshot values)
+	submitSameObject        // SetSubscriberQoS(s.obj) after the snapshot values were written INTO s.obj in place
+	submitByName            // SetSubscriberPolicy(ip, named radius.QoSPolicy with the snapshot values)
+)
+
+// submit performs one Set call for the values in s.Down/Up/Burst/Prio.
+func (p *plane) submit(s *subscriber, how int) error {
+	switch how {
+	case submitByName:
 		name := fmt.Sprintf("verif-%d-%d-%d-%d", s.Down, s.Up, s.Burst, s.Prio)
 		if err := p.pm.AddPolicy(&radius.QoSPolicy{Name: name, DownloadBPS: s.Down, UploadBPS: s.Up, BurstSize: s.Burst, Priority: s.Prio}); err != nil {
 			return err
 		}
+		s.lastByName = true
 		return p.mgr.SetSubscriberPolicy(ipOf(s.IP), name)
+	case submitSameObject:
+		if s.obj == nil {
+			s.obj = &qos.SubscriberQoS{IP: ipOf(s.IP), PolicyName: "verif"}
+		}
+		s.obj.DownloadBPS, s.obj.UploadBPS, s.obj.BurstBytes, s.obj.Priority = s.Down, s.Up, s.Burst, s.Prio
+	default:
+		s.obj = &qos.SubscriberQoS{IP: ipOf(s.IP), DownloadBPS: s.Down, UploadBPS: s.Up, BurstBytes: s.Burst, Priority: s.Prio, PolicyName: "verif"}
 	}
-	return p.mgr.SetSubscriberQoS(&qos.SubscriberQoS{IP: ipOf(s.IP), DownloadBPS: s.Down, UploadBPS: s.Up, BurstBytes: s.Burst, Priority: s.Prio, PolicyName: "verif"})
+	s.lastByName = false
+	return p.mgr.SetSubscriberQoS(s.obj)
 }
 
 // kernelKeys lists the raw keys currently in the kernel map of dir.
@@ -103,13 +132,13 @@ func (p *plane) kernelKeys(dir int) map[string]bool {
 // the packet's address: violation sigKeyNotFound; when that is a listed finding and steer is on, the
 // entry the manager wrote for s (s.wroteKey, observed as the key that appeared in the kernel map during
 // the Set call) is moved to the datapath key in the runner's copy.
-func (p *plane) locate(t fataler, s *subscriber, dir int, steer bool) (b bucket, found, abandon bool) {
+func (p *plane) locate(t fataler, s *subscriber, dir int, steer bool, event string) (b bucket, found, abandon bool) {
 	if b, ok := p.lookup(dir, s.IP); ok {
 		return b, true, false
 	}
 	wrote := s.wroteKey[dir]
-	listed := failSig(t, sigKeyNotFound, "Set(%s) succeeded but %s holds no bucket under the address bytes % x the %s program looks up (the manager wrote key % x)",
-		s, dirMap(dir), datapathKey(s.IP), dirProg(dir), wrote)
+	listed := failSig(t, missingSig(event), "Set(%s) [%s] succeeded but %s holds no bucket under the address bytes % x the %s program looks up (the manager wrote key % x)",
+		s, event, dirMap(dir), datapathKey(s.IP), dirProg(dir), wrote)
 	if !listed || !steer || wrote == nil {
 		return bucket{}, false, true
 	}
@@ -127,20 +156,38 @@ func (p *plane) locate(t fataler, s *subscriber, dir int, steer bool) (b bucket,
 	return parseBucket(raw), true, false
 }
 
+// Control-plane events a bucket is checked after (last signature component).
+const (
+	evFirstSet    = "first-set"
+	evFreshUpdate = "fresh-update"       // new object / named policy with new numbers for an address that has a policy
+	evInPlace     = "in-place-update"    // the object handed over before, edited by the caller and submitted again
+	evIdentical   = "identical-resubmit" // the same numbers again (same object, new object, or the same named policy)
+	evAfterRemove = "set-after-remove"
+	evAfterStart  = "after-restart" // data plane restarted (new, empty maps), policies re-applied by the caller
+	evBystander   = "bystander"     // another subscriber's call / a caller-side edit that was not submitted
+)
+
+// missingSig: a successful Set left no bucket at the packet address.  The first Set keeps the plain
+// signature (fixed finding KF-C19-1 and its replay); later events are distinguished.
+func missingSig(event string) string {
+	if event == evFirstSet || event == "" {
+		return sigKeyNotFound
+	}
+	return sigKeyNotFound + "/" + event
+}
+
 // contract derives what the statement promises for (s, dir) from the policy handed to the control
-// plane and checks the stored bucket against it ("the policy set through the control plane is the one
-// enforced").  burst is the contract the traffic oracle uses for clause 1 and the slack of clause 2;
-// bucket (<= burst) is the size of the bucket enforcing it (saturation precondition of clause 2).
-//
-// Fields are compared only where a difference contradicts the statement observably: another rate, a
-// bucket LARGER than the configured burst (admits more than burst + rate*window), another priority.
-// A bucket smaller than the configured burst keeps clause 1, and clause 2 for a subscriber that really
-// always has a packet waiting; it is reported as a class, not a violation.  The initial fill is not
-// compared (its unit is the datapath's business); an over-full start shows as over-admission in traffic.
-func contract(t fataler, s *subscriber, dir int, b bucket) (rate uint64, burst, bkt uint32, abandon bool) {
+// plane in the LAST successful Set call (snapshot in s) and checks the stored bucket against it ("the
+// policy set through the control plane is the one enforced"): the same rate, the same priority, and -
+// when the policy configures a burst - the same burst.  burst is the contract the traffic oracle uses
+// for clause 1 and the slack of clause 2; bkt is the size of the bucket enforcing it.
+// The initial fill is not compared (its unit is the datapath's business); an over-full start shows as
+// over-admission in traffic.  Signature: C19/manager/bucket-fields/<field>/<direction>/<event>.
+func contract(t fataler, s *subscriber, dir int, b bucket, event string) (rate uint64, burst, bkt uint32, abandon bool) {
+	sfx := "/" + dirName(dir) + "/" + event
 	rate = s.rate(dir)
 	if b.Rate != rate {
-		return 0, 0, 0, failSig(t, sigFields+"/rate/"+dirName(dir), "%s bucket of %s has rate %d, policy says %d", dirName(dir), s, b.Rate, rate)
+		return 0, 0, 0, failSig(t, sigFields+"/rate"+sfx, "[%s] %s bucket of %s has rate %d, the policy set last says %d", event, dirName(dir), s, b.Rate, rate)
 	}
 	burst, bkt = s.Burst, b.Burst
 	switch {
@@ -149,23 +196,21 @@ func contract(t fataler, s *subscriber, dir int, b bucket) (rate uint64, burst, 
 		// of traffic, at least 64 KB); nothing to compare against except that it can hold a packet
 		burst = b.Burst
 		if rate != 0 && burst < maxPkt {
-			return 0, 0, 0, failSig(t, sigFields+"/default-burst/"+dirName(dir), "%s default burst %d cannot hold a maximum-size packet (%s)", dirName(dir), burst, s)
+			return 0, 0, 0, failSig(t, sigFields+"/default-burst"+sfx, "[%s] %s default burst %d cannot hold a maximum-size packet (%s)", event, dirName(dir), burst, s)
 		}
-	case b.Burst > burst && rate != 0:
-		if dir == dirIngress {
+	case b.Burst > burst && dir == dirIngress && event == evFirstSet:
+		// (fixed finding KF-C19-2 keeps its signature)
+		if rate != 0 {
 			if !failSig(t, sigIngressBurst, "policy %s configures burst %d but the ingress bucket enforces burst %d: upload may exceed %d bytes + rate*window", s, s.Burst, b.Burst, s.Burst) {
 				return
 			}
-			// listed: continue against the burst actually stored, so the limiter itself is still explored
-			burst = b.Burst
-		} else {
-			return 0, 0, 0, failSig(t, sigFields+"/burst/"+dirName(dir), "%s bucket of %s has burst %d, policy says %d", dirName(dir), s, b.Burst, burst)
+			burst = b.Burst // listed: continue against the burst actually stored
 		}
-	case b.Burst < burst:
-		s.smaller[dir] = true
+	case b.Burst != burst:
+		return 0, 0, 0, failSig(t, sigFields+"/burst"+sfx, "[%s] %s bucket of %s has burst %d, the policy set last says %d", event, dirName(dir), s, b.Burst, burst)
 	}
 	if b.Prio != s.Prio {
-		return 0, 0, 0, failSig(t, sigFields+"/priority/"+dirName(dir), "%s bucket of %s has priority %d, policy says %d", dirName(dir), s, b.Prio, s.Prio)
+		return 0, 0, 0, failSig(t, sigFields+"/priority"+sfx, "[%s] %s bucket of %s has priority %d, the policy set last says %d", event, dirName(dir), s, b.Prio, s.Prio)
 	}
 	return rate, burst, bkt, false
 }
@@ -188,6 +233,7 @@ func other(rt *rapid.T, label string) [4]byte {
 
 // setup installs subs, syncs, locates and validates every bucket.  Returns the flows (2 per subscriber).
 func (p *plane) setup(t fataler, subs []*subscriber, steer bool) (flows []*flow, abandon bool) {
+	p.resetManager() // no control-plane state (tracked subscribers, named policies) is shared between cases
 	p.wipe()
 	if err := p.c.ClearMaps(); err != nil {
 		inconclusive("ClearMaps: %v", err)
@@ -208,11 +254,11 @@ func (p *plane) setup(t fataler, subs []*subscriber, steer bool) (flows []*flow,
 	p.sync()
 	for _, s := range subs {
 		for dir := 0; dir < 2; dir++ {
-			b, found, ab := p.locate(t, s, dir, steer)
+			b, found, ab := p.locate(t, s, dir, steer, evFirstSet)
 			if ab || !found {
 				return nil, true
 			}
-			rate, burst, bkt, ab := contract(t, s, dir, b)
+			rate, burst, bkt, ab := contract(t, s, dir, b, evFirstSet)
 			if ab {
 				return nil, true
 			}
@@ -357,9 +403,6 @@ func TestPropTCSequence(t *testing.T) {
 		nt := nonTrivial(mf.ev)
 		if nt {
 			cls = append(cls, "nt:drop-then-admit", "nt:tc:"+dirName(dir))
-		}
-		if main.smaller[dir] {
-			cls = append(cls, "ingress-bucket-below-policy")
 		}
 		vstat.Case(nt, vstat.Hash("tc", dir, main.String(), seq.T0, len(subs), cross, fmt.Sprint(mf.ev)),
 			func() any {
